@@ -13,6 +13,9 @@ CLAIMED = {
  'C15': dict(cat='model_checking', tech='bounded model checking (CBMC/SAT) of the real SignalHandler code translated from clang IR, with the signal delivery points as symbolic scheduler choices',
    text='The real constructor, SetHandler, HandleSigInt and destructor of src/solver.cc are executed symbolically; before every store to the shared static members (yield points inserted from the IR) and between driver steps the solver chooses whether one of up to 3 signals (SIGINT/SIGTERM) is delivered. All schedules within that bound are decided at once; counterexample schedules are replayed on the real g++ build through the MP_VERIF_SIGPOINT hooks.',
    note='Bound: <=3 signals, <=2 registrations, no nested delivery inside the handler; delivery only at instruction boundaries preceding an access to shared state (others are equivalent). libc signal/write/_exit/getenv are contract stubs; fmt::format (message text) is a stub. The dangling-but-unread message pointer after destruction is reported as unconfirmed UB (pointer arithmetic on a freed object with size 0).', ref='DESIGN.md 3 C15'),
+ 'C11': dict(cat='model_checking', tech='bounded model checking (CBMC/SAT) of the real option tokeniser and ParseOptionString translated from clang IR; the option text is a symbolic byte string',
+   text='SkipSpaces/SkipNonSpaces/SkipToEnd, OptionHelper<std::string|int|double>::Parse and BasicSolver::ParseOptionString are executed symbolically on every NUL-terminated string up to the stated length (all byte values). A reference tokeniser in the harness advances in lock step with the calls the real code makes (FindOption name, setter entry point, name=?, flag=value, unknown name); unwinding assertions give termination inside the bound.',
+   note='Bounds: kernels <=8 bytes (quick) / 12 (thorough); ParseOptionString <=3 bytes echo off (quick) / 6 bytes with echo (thorough). strtol/strtod are contract stubs (numeric value itself outside); FindOption/Print/ReportError and the virtual option calls are checking stubs, so synonym/wildcard lookup is outside this harness. ParseOptionString counterexamples are replayed on the translated code (its environment is stubbed); kernel counterexamples on the real ASan build.', ref='DESIGN.md 3 C11'),
 }
 NA = {
  'C09': 'whole-process driver behaviour (exit status, stderr, .sol file on disk) over an instantiated backend: no bounded unit states it and neither CBMC nor the IR engines can carry main->BackendApp::Run with filesystem effects; its encodable ingredients are decided under C02, C10, C11, C12',
